@@ -241,7 +241,10 @@ where
     /// assert!(a.out_degree() == 2);
     /// ```
     pub fn degree(&self) -> usize {
-        self.inner.2.read().unwrap().len_outbound() + self.inner.2.read().unwrap().len_inbound()
+        // One guard for both lengths: a second read() on the same thread
+        // deadlocks as soon as another thread is waiting to write.
+        let adjacent = self.inner.2.read().unwrap();
+        adjacent.len_outbound() + adjacent.len_inbound()
     }
 
     /// Connects this node to another node. The connection is created in both
@@ -403,8 +406,8 @@ where
     /// Returns true if the node is an oprhan. Orphan nodes are nodes that have
     /// no connections.
     pub fn is_orphan(&self) -> bool {
-        self.inner.2.read().unwrap().len_outbound() == 0
-            && self.inner.2.read().unwrap().len_inbound() == 0
+        let adjacent = self.inner.2.read().unwrap();
+        adjacent.len_outbound() == 0 && adjacent.len_inbound() == 0
     }
 
     /// Returns true if the node is connected to another node with a given key.
